@@ -74,6 +74,8 @@ def build(case):
     # non-finite samples in a template must stay where they are; only in uncurated merges (with curated clusters
     # load_model itself refuses such templates, merged or not: outside the statement)
     nonfinite = int(rng.integers(0, k)) if rng.random() < 0.15 else -1
+    if case.get('finite_only'):
+        nonfinite = -1            # (C13/C14 export amplitudes, which non-finite templates leave undefined)
     specs = []
     for p in range(k):
         def pick(mode):
